@@ -29,3 +29,7 @@ func VerifHostsResolve(r HostResolver, q query.Query, buf []byte) (int, resolver
 func VerifIsPrivateReverse(qname string) bool { return isPrivateReverse(qname) }
 func VerifPtrIP(ptr string) net.IP            { return ptrIP(ptr) }
 func VerifIsNXDomain(msg []byte) bool         { return isNXDomain(msg) }
+
+// VerifServeUDP runs the real UDP listener loop on a socket the harness owns (so that it can make the pending read
+// fail), with the given inflight semaphore.
+func (p Proxy) VerifServeUDP(l net.PacketConn, inflight chan struct{}) error { return p.serveUDP(l, inflight) }
